@@ -221,8 +221,8 @@ class NDArrayImageStack(ImageStack[ScalarType]):
             elif np.issubdtype(dtype, np.unsignedinteger) and np.issubdtype(
                 dtype_raw, np.floating
             ):
-                sclar_factor = UINT_MAX[dtype]  # type: ignore
-                imgs *= (sclar_factor * imgs).astype(dtype)
+                sclar_factor = UINT_MAX[np.dtype(dtype)]  # type: ignore
+                imgs = (sclar_factor * imgs).astype(dtype)
             else:
                 imgs = imgs.astype(dtype)
 
